@@ -27,14 +27,16 @@ def parseOut (s : String) : Option (Out × Bool) :=
   match s.toList with
   | ['p'] => some (.panic, false)
   | ['n'] => some (.never, false)
+  | ['z'] => some (.never, false)   -- yields for ever (never parks): for the model a body that never ends
   | ['b'] => some (.never, true)
   | 'v' :: r => (String.ofList r).toNat?.map fun v => (.ok v, false)
   | _ => none
 
 /-- suspensions of a body text: `-` none; `y` yield, `s`/`t` timers: one each; `i` pipe I/O: three;
-`r` woken twice from a helper thread (the second time during the poll the first wake caused): two -/
+`r` woken twice from a helper thread (the second time during the poll the first wake caused), `R` the same
+with two back-to-back wakes each time: two -/
 def parseSusp (s : String) : Nat :=
-  if s = "-" then 0 else (s.toList.map fun c => if c = 'i' then 3 else if c = 'r' then 2 else 1).sum
+  if s = "-" then 0 else (s.toList.map fun c => if c = 'i' then 3 else if c = 'r' || c = 'R' then 2 else 1).sum
 
 def parseObs (tok : String) : Option Obs :=
   match tok.splitOn "." with
